@@ -24,7 +24,7 @@ def check(run):
 
     run.clause('R9 byte account: += measure in the enqueue block, -= the same measure in the dequeue block, no other writer')
     engines.r2_writer_table(run, Q + '::m_queue_size', {Q + '::queue': 'constructor', ip.norm: 'enqueue', ns.norm: 'dequeue'}, required=[ip.norm, ns.norm])
-    enq = [c for c in ip.calls() if (c.get('callee') or '').split('::')[-1] == 'emplace_back' and q.render(ip, c.get('obj')) == 'm_queue']
+    enq = [c for op, c in q.container_calls(ip, 'm_queue', {'push_back'})]
     adds = [a for a in q.field_accesses(ip, {Q + '::m_queue_size'}) if a.kind == 'compound']
     ok = len(enq) == 1 and len(adds) == 1 and adds[0].method == '+=' and ip.cfg.node_block(enq[0]) == ip.cfg.node_block(adds[0].site)
     m = q.linform(ip, adds[0].site['rhs'], sub_ip) if adds else None
@@ -32,7 +32,7 @@ def check(run):
               'the enqueue and the += of m_queue_size are not one unconditional pair with measure payload+overhead (found %s in block %s vs enqueue block %s): the account drifts for packets that take the other path'
               % (q.render(ip, adds[0].site['rhs']) if adds else None, ip.cfg.node_block(adds[0].site) if adds else None, ip.cfg.node_block(enq[0]) if enq else None),
               'emplace_back and += (payload+overhead) in the same block')
-    deq = [c for c in ns.calls() if (c.get('callee') or '').endswith('::erase') and q.render(ns, c.get('obj')) == 'm_queue']
+    deq = [c for op, c in q.container_calls(ns, 'm_queue', {'pop_front'})]
     subs = [a for a in q.field_accesses(ns, {Q + '::m_queue_size'}) if a.kind == 'compound']
     ok = len(deq) == 1 and len(subs) == 1 and subs[0].method == '-=' and ns.cfg.node_block(deq[0]) == ns.cfg.node_block(subs[0].site)
     m2 = q.linform(ns, subs[0].site['rhs'], sub_ns) if subs else None
